@@ -318,7 +318,14 @@ class AsynchronousDeferredRunTest(_DeferredRunTest):
             d = defer.maybeDeferred(f, *args, **kwargs)
             try:
                 yield d
-            except Exception:
+            except GeneratorExit:
+                # This generator is being closed: the run was abandoned (a
+                # timeout, say) while waiting for this cleanup.
+                raise
+            except BaseException:
+                # Everything else, as RunTest does: a KeyboardInterrupt or
+                # SystemExit is re-raised once the test has been reported,
+                # after the remaining cleanups have run.
                 exc_info = sys.exc_info()
                 self.case._report_traceback(exc_info)
                 last_exception = exc_info[1]
